@@ -592,6 +592,9 @@ func checkC15(w *World, r *Run) {
 			}
 		}
 	}
+	ruleKeep := r.Rule("bytes-delivered-with-an-error-are-kept", "F1",
+		"every Read wrapper of the repository returns 0 after its inner Read only where the inner n is known to be 0, and ioutils.ReadChunk extends its buffer by n before looking at err (io.Reader may return n > 0 together with io.EOF)", 8)
+	checkReadersKeepBytes(w, r, ruleKeep)
 	r.NotCovered("byte equality across chunk, segment and stripe boundaries, for every content and size (runtime values); the cloud-drive and sftp stores' remote behaviour; GetPartIds exactness; the empty-part behaviour of the SQL part store; encryption is C16, erasure-coding fault tolerance C17, the cache C19, the outbox C18")
 }
 
@@ -764,6 +767,42 @@ func checkC17(w *World, r *Run) {
 				}
 			}
 		}
+	}
+	// … and always: a shard dropped while its stripe was being read leaves a nil data shard
+	// although its reader was open when the stripe started, so reconstruction may not be
+	// skipped on any path that goes on to emit the stripe
+	if recon != nil {
+		skipped := token.NoPos
+		allInstrs(lit, false, func(_ *ssa.Function, ins ssa.Instruction) {
+			c, ok := ins.(*ssa.Call)
+			if !ok || !isCallNamed(c, "Write") || !canReach(recon, c) && !canReach(firstInstr(recon.Block()), c) {
+				return
+			}
+			// writes of the stripe: reachable from the quorum test's success edge
+			qb := recon.Block()
+			for d := qb; d != nil; d = d.Idom() {
+				if len(d.Instrs) == 0 {
+					continue
+				}
+				if iff, ok := d.Instrs[len(d.Instrs)-1].(*ssa.If); ok {
+					if bo, ok := iff.Cond.(*ssa.BinOp); ok {
+						if n, _ := fieldLoadName(bo.Y); n == "dataShards" {
+							qb = d
+							break
+						}
+					}
+				}
+			}
+			if qb.Dominates(c.Block()) && qb != c.Block() && !instrDominates(recon, c) {
+				skipped = c.Pos()
+			}
+		})
+		r.Check(skipped == token.NoPos, ruleQuorum, "every emitted stripe went through ReconstructData", func() token.Pos {
+			if skipped != token.NoPos {
+				return skipped
+			}
+			return recon.Pos()
+		}(), "ReconstructData dominates the stripe's writes", "a stripe can be written out (to the caller or to healing shards) without ReconstructData: a data shard found corrupt or truncated while the stripe was read stays nil and the stripe is emitted short — wrong bytes, no error, with a single faulty shard")
 	}
 	r.Check(q, ruleQuorum, "ReconstructData only with at least dataShards verified shards", posOrFn(recon, fn), "available >= dataShards dominates ReconstructData", "reconstruction is attempted with fewer verified shards than data shards (or the count is not checked): the read returns garbage instead of failing")
 	failOK := false
